@@ -1002,3 +1002,139 @@ class window_assemble_count(window_assemble):
     """C13 (group values and expansion, COUNT)."""
     params = _agg_params('count')
     tier = 'thorough'
+
+
+# =================================================================== Table.sort_by (C14)
+SB = 'serif.table.Table.sort_by'
+
+
+def _strictly_before(a, b, rev, na_last):
+    """the statement's order on one key: does a row with key a have to come strictly before a row
+    with key b?  None last (first with na_last=False) whatever the direction; otherwise by value in
+    the key's direction; identical or equal values tie."""
+    if a is None and b is None:
+        return False
+    if a is None:
+        return not na_last
+    if b is None:
+        return na_last
+    if S.same(a, b) or a == b:
+        return False
+    return (b < a) if rev else (a < b)
+
+
+def _lex_before(keys_i, keys_j, revs, na_last):
+    """lexicographic: strictly before on the first key that does not tie"""
+    if len(keys_i) == 0:
+        return False
+    if _strictly_before(keys_i[0], keys_j[0], revs[0], na_last):
+        return True
+    if _strictly_before(keys_j[0], keys_i[0], revs[0], na_last):
+        return False
+    return _lex_before(keys_i[1:], keys_j[1:], revs[1:], na_last)
+
+
+@exit_assert(SB)
+def sb_exit(result, any_int_P, any_int_Q, self=None, indices=None, resolved=None, rev_flags=None, na_last=None, nrows=None):
+    """At the return of sort_by (after the sorting loop), for two arbitrary output positions P < Q
+    with source rows i = indices[P], j = indices[Q]: same shape and names as the input; i and j are
+    distinct rows of the input (with the row count unchanged: a permutation); every column holds the
+    source rows' cells (cells kept together); row j does not have to come strictly before row i in
+    the lexicographic key order (each key in its direction, None placed by na_last); and if neither
+    has to come before the other, i < j (ties keep their original order)."""
+    if indices is None or resolved is None or nrows is None:
+        return True
+    P, Q = any_int_P, any_int_Q
+    ncols = len(self._underlying)
+    if not (len(result._underlying) == ncols
+            and all(len(result._underlying[c]._underlying) == nrows for c in range(ncols))
+            and all(result._underlying[c]._name == self._underlying[c]._name for c in range(ncols))):
+        return False
+    if not (0 <= P < Q < nrows):
+        return True
+    i = S.at(indices, P)
+    j = S.at(indices, Q)
+    if not (0 <= i < nrows and 0 <= j < nrows and i != j):
+        return False
+    if not all(S.same(S.at(result._underlying[c]._underlying, P), S.at(self._underlying[c]._underlying, i))
+               and S.same(S.at(result._underlying[c]._underlying, Q), S.at(self._underlying[c]._underlying, j))
+               for c in range(ncols)):
+        return False
+    ki = [S.at(col._underlying, i) for col in resolved]
+    kj = [S.at(col._underlying, j) for col in resolved]
+    if _lex_before(kj, ki, rev_flags, na_last):
+        return False
+    return _lex_before(ki, kj, rev_flags, na_last) or i < j
+
+
+@contract(SB, props=['C14'], variant='one-key')
+class sort_by_one_key:
+    """C14 (Table.sort_by, one key vector, two columns, any number of rows, either direction,
+    either None placement): under the trusted stable-sort contract of `list.sort`, the real text
+    (key function with its flipped None flag, `reverse=rev`, rebuilding of the columns) returns a
+    permutation of the rows with cells kept together, ordered by the key in its direction with None
+    placed by `na_last`, ties in original order (exit assertion `sb_exit`, arbitrary positions)."""
+    params = {'self': 'table2', 'by': 'dvector', 'reverse': 'bool', 'na_last': 'bool'}
+    from serif.errors import SerifTypeError as _T
+    may_raise = [SerifValueError, _T]
+    quant_prune = False
+
+    def requires(self, by):
+        return S.rect(self) and S.truthful(by) and all(S.truthful(c) for c in self._underlying)
+
+
+@contract(SB, props=['C14'], variant='two-keys')
+class sort_by_two_keys(sort_by_one_key):
+    """C14 (Table.sort_by, TWO key vectors with independent directions): the two successive stable
+    sorts (last key first) give the lexicographic order - first key in its direction, ties broken
+    by the second key in its direction, remaining ties in original order."""
+    params = {'self': 'table2', 'by': 'listof:2:dvector', 'reverse': 'listof:2:bool', 'na_last': 'bool'}
+    tier = 'thorough'
+
+    def requires(self, by):
+        return S.rect(self) and all(S.truthful(v) for v in by) and all(S.truthful(c) for c in self._underlying)
+
+
+# =================================================================== Vector.sort_by (C14)
+VSB = 'serif.vector.Vector.sort_by'
+
+
+@exit_assert(VSB)
+def vsb_exit(result, any_int_P, any_int_Q, self=None, new_values=None, reverse=None, na_last=None):
+    """Vector.sort_by obeys the same contract: same length, name and dtype; for two arbitrary output
+    positions P < Q with source positions i, j: distinct positions of the input, the same elements,
+    j does not have to come strictly before i (direction, None placement), ties keep their order."""
+    if new_values is None:
+        return True
+    n = len(self._underlying)
+    P, Q = any_int_P, any_int_Q
+    if not (len(result._underlying) == n and result._name == self._name and result._dtype == self._dtype):
+        return False
+    if not (0 <= P < Q < n):
+        return True
+    i = S.sort_source(new_values, P)
+    j = S.sort_source(new_values, Q)
+    if not (0 <= i < n and 0 <= j < n and i != j):
+        return False
+    a = S.at(self._underlying, i)
+    b = S.at(self._underlying, j)
+    if not (S.same(S.at(result._underlying, P), a) and S.same(S.at(result._underlying, Q), b)):
+        return False
+    rev = True if reverse else False
+    nl = True if na_last else False
+    if _strictly_before(b, a, rev, nl):
+        return False
+    return _strictly_before(a, b, rev, nl) or i < j
+
+
+@contract(VSB, props=['C14'], variant='stable-sort')
+class vector_sort_by:
+    """C14 (Vector.sort_by, any length, either direction, either None placement): under the trusted
+    stable-sort contract of `sorted`, the result is a permutation of the elements ordered by value
+    in the requested direction, None placed by `na_last` whatever the direction, ties in original
+    order, with the name and dtype of the input (exit assertion `vsb_exit`)."""
+    params = {'self': 'vector', 'reverse': 'bool', 'na_last': 'bool'}
+    quant_prune = False
+
+    def requires(self):
+        return (self._dtype is None or S.valid_dtype(self._dtype)) and S.truthful(self)
